@@ -253,6 +253,9 @@ func (u *Unit) frameCheckComps(fr *Frame, pc Term, comps []compRef, pos token.Po
 		if strings.HasPrefix(c.Name, "G|") {
 			continue // ghost heap functions of opaque dependency objects are not part of the frame
 		}
+		if strings.HasPrefix(c.Name, "E|") && !strings.Contains(callee, "rolling-shutter") && !strings.HasPrefix(callee, "(*keyper") && !strings.HasPrefix(callee, "keyper") {
+			continue // element writes of dependency functions (sort, copy helpers) are not tracked per object
+		}
 		if !allowed[c.Name] {
 			u.oblige(fr, "frame", pos, fmt.Sprintf("callee %s assigns %s", callee, c.Name), pc, TFalse)
 			return
